@@ -124,7 +124,7 @@ func evaluatePair(
 }
 
 func calculateElectreResult(c1Val, c2Val Weight, c *Criterion, ths *ElectreCriterion) *ElectreResult {
-	if c1Val > c2Val {
+	if c1Val >= c2Val {
 		return &ElectreResult{C: 1}
 	}
 	originalFirstCriterionValue := c1Val * Weight(c.Multiplier())
